@@ -368,25 +368,39 @@ func ReturnsNilWithNilError(g *ssa.Function, idx int) (*ssa.Return, bool) {
 
 // NilNilDerefs finds dereferences, in fn, of the result of a call to a function of the program that can
 // return (nil, nil), where nothing establishes result != nil between the call and the use.
-func NilNilDerefs(ds *Describer, fn *ssa.Function) []NilDeref {
+func NilNilDerefs(ds *Describer, fn *ssa.Function, resolve func(*ssa.Call) []*ssa.Function) []NilDeref {
 	var out []NilDeref
 	EachInstr(fn, func(in ssa.Instruction) {
 		call, ok := in.(*ssa.Call)
 		if !ok {
 			return
 		}
-		g := call.Call.StaticCallee()
-		if g == nil || len(g.Blocks) == 0 {
-			return
+		var callees []*ssa.Function
+		if g := call.Call.StaticCallee(); g != nil {
+			callees = []*ssa.Function{g}
+		} else if resolve != nil {
+			callees = resolve(call)
 		}
-		n := g.Signature.Results().Len()
+		sig := call.Call.Signature()
+		n := sig.Results().Len()
 		for idx := 0; idx < n-1; idx++ {
-			switch g.Signature.Results().At(idx).Type().Underlying().(type) {
+			switch sig.Results().At(idx).Type().Underlying().(type) {
 			case *types.Pointer, *types.Interface:
 			default:
 				continue
 			}
-			ret, can := ReturnsNilWithNilError(g, idx)
+			var ret *ssa.Return
+			var g *ssa.Function
+			can := false
+			for _, c := range callees {
+				if len(c.Blocks) == 0 {
+					continue
+				}
+				if rt, ok := ReturnsNilWithNilError(c, idx); ok {
+					ret, g, can = rt, c, true
+					break
+				}
+			}
 			if !can {
 				continue
 			}
